@@ -216,6 +216,9 @@ func (r *Report) Finish() int {
 			report(v, "undecided: this obligation is recorded as discharged in obligations.lock and no solver discharges it now", true)
 		} else {
 			fmt.Printf("  UNDECIDED %5.2fs %s\n", v.TimeS, v.Obl.Name)
+			if r.Verbose {
+				fmt.Println(indent(truncate(v.Output, 800)))
+			}
 			notClaimed = append(notClaimed, v.Obl.Name)
 		}
 	}
